@@ -85,7 +85,9 @@ def api_strategy(tier):
             styles[sids[0]] = {"bold": True}      # a style DFXP cannot express at all
         percent = draw(st.integers(0, 3)) != 0
         lay = _layout(percent)
-        ln = gen.lines(meta=True, markers=False)
+        # (texts may quote the writer's own attribute syntax: they are text, not references)
+        ln = gen.lines(meta=True, markers=False,
+                       extra=[' region="bottom"', 'x region="r0" y', 'style="p"', 'xml:id="bottom"', "]]", "]]>"])
         langs = []
         for code in codes:
             cues = []
@@ -98,6 +100,10 @@ def api_strategy(tier):
                     kind = draw(st.sampled_from(["t", "t", "br", "open", "close"]))
                     if kind == "t":
                         nodes.append({"t": draw(ln), "layout": draw(st.one_of(st.none(), st.none(), lay))})
+                        if draw(st.integers(0, 9)) == 0:
+                            # a sequence XML forbids in character data, formed by two adjacent nodes
+                            nodes[-1]["t"] = nodes[-1]["t"] + " ]]"
+                            nodes.append({"t": "> b", "layout": nodes[-1].get("layout")})
                     elif kind == "br":
                         nodes.append({"br": 1})
                     elif kind == "open" and len(stack) < 2:
